@@ -1,12 +1,626 @@
-//! C02: harness not built yet.
+//! C02: PASE admits only a peer that knows the passcode, only while a window is open.
+//!
+//! One case = a real device `Matter` with the real `SecureChannel` responder and a real controller
+//! `Matter` (transport only) on the simulated network with virtual time. A script plays the PASE
+//! initiator message by message with the real `Spake2P` prover, so that between any two messages
+//! it can open / revoke the window, let time pass, run a second initiator, send a wrong passcode,
+//! an invalid share, a mutated or replayed confirmation.
+//!
+//! `case <id> pw=<device passcode>`
+//! ops: `open t=<secs>` | `revoke` | `tick ms=<n>` | `poll`
+//!      `pbkdf i=<k> [req=good|malformed|pid]`            first message of initiator k (new exchange)
+//!      `pake1 i=<k> pw=<n> [pt=valid|zero|offcurve|short]`
+//!      `pake3 i=<k> [ca=good|flip|zero|short|replay:<j>]`   (replay: the cA initiator j computed)
+//!      `abort i=<k>`                                       status report InvalidParameter instead of the next message
+//! `case <id> pw=<n> tamper=<k>:<bit>`: additionally exactly one bit of the *payload* (the TLV handshake
+//!      message behind the two headers) of the k-th payload-carrying datagram towards the device - or of the
+//!      PBKDFParamResponse - is flipped in flight (bit index modulo the payload length); such cases are checked
+//!      by the oracle only (no session may result).
+//! every answer: `t=<virtual ms at the op> <reply> | w=<0|1> f=<failures|-> m=<0|1> s=<PASE sessions> adv=<0|1>`
+use crate::proto::{parse_cases, Case, Out};
+use crate::rng::Rng;
+use crate::simnet::{addr_of, now_ms, run_sim, Perfect, SimEnd, SimNet};
 use crate::Args;
 
-pub fn gen(_a: &Args) -> String {
-    eprintln!("C02: harness not built yet");
-    std::process::exit(2);
+use std::cell::RefCell;
+use std::collections::HashMap;
+
+use embassy_futures::select::{select, select4, Either};
+use embassy_time::{Duration, Timer};
+
+use rs_matter::crypto::{test_only_crypto, Crypto, EC_POINT_ZEROED, HMAC_HASH_ZEROED};
+use rs_matter::dm::devices::test::{TEST_DEV_ATT, TEST_DEV_DET};
+use rs_matter::error::{Error, ErrorCode};
+use rs_matter::respond::Responder;
+use rs_matter::sc::pase::verif_spake2p::{ProverContext, Spake2P};
+use rs_matter::sc::pase::{verif_parse_pbkdf_resp, verif_parse_pake2, Spake2pVerifierPassword, Spake2pVerifierPasswordRef};
+use rs_matter::sc::{sc_write, OpCode, SCStatusCodes, SecureChannel, StatusReport, PROTO_ID_SECURE_CHANNEL};
+use rs_matter::tlv::{OctetStr, TLVTag, TLVWrite, ToTLV};
+use rs_matter::transport::exchange::{Exchange, MessageMeta};
+use rs_matter::transport::network::NoNetwork;
+use rs_matter::transport::session::SessionMode;
+use rs_matter::transport::packet::PacketHdr;
+use rs_matter::utils::storage::{ParseBuf, ReadBuf};
+use rs_matter::transport::network::MatterLocalService;
+use rs_matter::BasicCommData;
+use rs_matter::Matter;
+
+const REPLY_WAIT_MS: u64 = 1500;
+
+fn kv(op: &str) -> HashMap<String, String> {
+    let mut m = HashMap::new();
+    for w in op.split_whitespace() {
+        if let Some((k, v)) = w.split_once('=') {
+            m.insert(k.to_string(), v.to_string());
+        }
+    }
+    m
 }
 
-pub fn replay(_a: &Args) -> String {
-    eprintln!("C02: harness not built yet");
-    std::process::exit(2);
+fn num(m: &HashMap<String, String>, k: &str) -> u64 {
+    m.get(k).and_then(|v| v.parse().ok()).unwrap_or(0)
+}
+
+struct Init<'a> {
+    ex: Option<Exchange<'a>>,
+    spake: Spake2P,
+    req: Vec<u8>,
+    local_sessid: u16,
+    salt: Vec<u8>,
+    iterations: u32,
+    pa: Vec<u8>,
+    prover: Option<ProverContext>,
+    pb: Vec<u8>,
+    cb: Vec<u8>,
+    ca: Option<Vec<u8>>,
+}
+
+fn observe(device: &Matter) -> String {
+    let (w, f, m) = device.with_state(|st| st.verif_pase().verif_state());
+    let sessions = device.with_state(|st| {
+        st.verif_sessions().iter().filter(|s| matches!(s.get_session_mode(), SessionMode::Pase { .. })).count()
+    });
+    let mut adv = 0;
+    let _ = device.mdns_services(|s| {
+        if matches!(s, MatterLocalService::Commissionable { .. }) {
+            adv += 1;
+        }
+        Ok(())
+    });
+    format!(
+        "w={} f={} m={} s={} adv={}",
+        w as u8,
+        f.map(|x| x.to_string()).unwrap_or("-".into()),
+        m as u8,
+        sessions,
+        adv
+    )
+}
+
+/// wait for the next message on the exchange (or silence)
+async fn reply(ex: &mut Exchange<'_>) -> Result<(u8, Vec<u8>), String> {
+    let r = {
+        let rx = core::pin::pin!(ex.recv());
+        let to = core::pin::pin!(Timer::after(Duration::from_millis(REPLY_WAIT_MS)));
+        match select(rx, to).await {
+            Either::First(Ok(rx)) => Ok((rx.meta().proto_opcode, rx.payload().to_vec())),
+            Either::First(Err(e)) => Err(format!("exch-err:{:?}", e.code())),
+            Either::Second(_) => Err("silent".to_string()),
+        }
+    };
+    r
+}
+
+fn describe(op: u8, payload: &[u8]) -> String {
+    if op == OpCode::StatusReport as u8 {
+        let mut rb = ReadBuf::new(payload);
+        match StatusReport::read(&mut rb) {
+            Ok(s) => format!("status:{}", s.proto_code),
+            Err(_) => "status:?".into(),
+        }
+    } else if op == OpCode::PBKDFParamResponse as u8 {
+        "pbkdfresp".into()
+    } else if op == OpCode::PASEPake2 as u8 {
+        "pake2".into()
+    } else {
+        format!("op:{:02x}", op)
+    }
+}
+
+async fn run_script<'a, C: Crypto>(device: &'a Matter<'a>, ctrl: &'a Matter<'a>, crypto: &'a C, ops: &[String], outs: &RefCell<Vec<String>>, notes: &RefCell<Vec<String>>) -> Result<(), Error> {
+    let mut inits: HashMap<u64, Init<'a>> = HashMap::new();
+    for op in ops {
+        let m = kv(op);
+        let t0 = now_ms();
+        let head = op.split_whitespace().next().unwrap_or("");
+        let res: String = match head {
+            "open" => match device.open_basic_comm_window(num(&m, "t") as u16, crypto, &()) {
+                Ok(()) => "ok".into(),
+                Err(e) => format!("err:{:?}", e.code()),
+            },
+            "revoke" => match device.close_comm_window(&()) {
+                Ok(_) => "ok".into(),
+                Err(e) => format!("err:{:?}", e.code()),
+            },
+            "tick" => {
+                Timer::after(Duration::from_millis(num(&m, "ms"))).await;
+                "-".into()
+            }
+            "poll" => {
+                let _ = device.with_state(|st| st.verif_pase().check_comm_window_timeout(|| {}, |_, _| {}));
+                "-".into()
+            }
+            "pbkdf" => {
+                let k = num(&m, "i");
+                let mut ex = Exchange::initiate_plaintext(ctrl, crypto, addr_of(0)).await?;
+                let local_sessid = 100 + k as u16;
+                let kind = m.get("req").cloned().unwrap_or("good".into());
+                let mut rnd = [0u8; 32];
+                for (i, b) in rnd.iter_mut().enumerate() {
+                    *b = (k as u8).wrapping_mul(31).wrapping_add(i as u8);
+                }
+                let mut req: Vec<u8> = Vec::new();
+                ex.send_with(|_, wb| {
+                    if kind == "malformed" {
+                        // a structure that lacks the mandatory fields
+                        wb.start_struct(&TLVTag::Anonymous)?;
+                        7u16.to_tlv(&TLVTag::Context(9), &mut *wb)?;
+                        wb.end_container()?;
+                    } else {
+                        wb.start_struct(&TLVTag::Anonymous)?;
+                        OctetStr::new(&rnd).to_tlv(&TLVTag::Context(1), &mut *wb)?;
+                        local_sessid.to_tlv(&TLVTag::Context(2), &mut *wb)?;
+                        (if kind == "pid" { 1u16 } else { 0u16 }).to_tlv(&TLVTag::Context(3), &mut *wb)?;
+                        false.to_tlv(&TLVTag::Context(4), &mut *wb)?;
+                        wb.end_container()?;
+                    }
+                    req = wb.as_slice().to_vec();
+                    Ok(Some(MessageMeta::new(PROTO_ID_SECURE_CHANNEL, OpCode::PBKDFParamRequest as u8, true)))
+                })
+                .await?;
+                let mut init = Init { ex: None, spake: Spake2P::new(), req, local_sessid, salt: vec![], iterations: 0, pa: vec![], prover: None, pb: vec![], cb: vec![], ca: None };
+                let r = reply(&mut ex).await;
+                let s = match r {
+                    Ok((opc, payload)) => {
+                        if opc == OpCode::PBKDFParamResponse as u8 {
+                            if let Ok((salt, iterations)) = verif_parse_pbkdf_resp(&payload).and_then(|(s, i)| if i > 100_000 { Err(ErrorCode::Invalid.into()) } else { Ok((s, i)) }) {
+                                init.salt = salt.to_vec();
+                                init.iterations = iterations;
+                                let ctx = init.spake.start_context(crypto, init.local_sessid, 0, &init.req)?;
+                                init.spake.finish_context::<C>(ctx, &payload)?;
+                            }
+                        }
+                        describe(opc, &payload)
+                    }
+                    Err(e) => e,
+                };
+                init.ex = Some(ex);
+                inits.insert(k, init);
+                s
+            }
+            "pake1" => {
+                let k = num(&m, "i");
+                match inits.get_mut(&k) {
+                    Some(init) if init.ex.is_some() && !init.salt.is_empty() => {
+                        let pw = (num(&m, "pw") as u32).to_le_bytes();
+                        let mut pa = EC_POINT_ZEROED;
+                        let prover = init.spake.setup_prover(crypto, Spake2pVerifierPasswordRef::new(&pw), &init.salt, init.iterations, &mut pa)?;
+                        init.prover = Some(prover);
+                        init.pa = pa.access().to_vec();
+                        let mut wire = init.pa.clone();
+                        match m.get("pt").map(|s| s.as_str()).unwrap_or("valid") {
+                            "zero" => wire = vec![0u8; 65],
+                            "offcurve" => wire[64] ^= 1,
+                            "short" => wire.truncate(33),
+                            _ => {}
+                        }
+                        let ex = init.ex.as_mut().unwrap();
+                        ex.send_with(|_, wb| {
+                            wb.start_struct(&TLVTag::Anonymous)?;
+                            OctetStr::new(&wire).to_tlv(&TLVTag::Context(1), &mut *wb)?;
+                            wb.end_container()?;
+                            Ok(Some(MessageMeta::new(PROTO_ID_SECURE_CHANNEL, OpCode::PASEPake1 as u8, true)))
+                        })
+                        .await?;
+                        match reply(ex).await {
+                            Ok((opc, payload)) => {
+                                if opc == OpCode::PASEPake2 as u8 {
+                                    if let Ok((pb, cb)) = verif_parse_pake2(&payload) {
+                                        init.pb = pb.to_vec();
+                                        init.cb = cb.to_vec();
+                                        // complete the prover; with a wrong passcode cB does not verify, the
+                                        // confirmation value the prover would have sent is still taken
+                                        let mut ca = HMAC_HASH_ZEROED;
+                                        let pa_ref = init.pa.as_slice().try_into()?;
+                                        let pb_ref = init.pb.as_slice().try_into()?;
+                                        let cb_ref = init.cb.as_slice().try_into()?;
+                                        let _ = init.spake.complete_prover(crypto, init.prover.as_ref().unwrap(), pa_ref, pb_ref, cb_ref, &mut ca);
+                                        init.ca = Some(init.spake.verif_ca().to_vec());
+                                    }
+                                }
+                                describe(opc, &payload)
+                            }
+                            Err(e) => e,
+                        }
+                    }
+                    _ => "skip".into(),
+                }
+            }
+            "pake3" => {
+                let k = num(&m, "i");
+                let mode = m.get("ca").cloned().unwrap_or("good".into());
+                let replayed: Option<Vec<u8>> = mode.strip_prefix("replay:").and_then(|j| j.parse::<u64>().ok()).and_then(|j| inits.get(&j).and_then(|i| i.ca.clone()));
+                match inits.get_mut(&k) {
+                    Some(init) if init.ex.is_some() && init.ca.is_some() => {
+                        let mut ca = init.ca.clone().unwrap();
+                        match mode.as_str() {
+                            "flip" => ca[7] ^= 0x10,
+                            "zero" => ca = vec![0u8; 32],
+                            "short" => ca.truncate(16),
+                            "good" => {}
+                            _ => {
+                                if let Some(r) = replayed {
+                                    ca = r
+                                } else {
+                                    ca[0] ^= 1
+                                }
+                            }
+                        }
+                        let ex = init.ex.as_mut().unwrap();
+                        ex.send_with(|_, wb| {
+                            wb.start_struct(&TLVTag::Anonymous)?;
+                            OctetStr::new(&ca).to_tlv(&TLVTag::Context(1), &mut *wb)?;
+                            wb.end_container()?;
+                            Ok(Some(MessageMeta::new(PROTO_ID_SECURE_CHANNEL, OpCode::PASEPake3 as u8, true)))
+                        })
+                        .await?;
+                        let s = match reply(ex).await {
+                            Ok((opc, payload)) => {
+                                let _ = ex.acknowledge().await;
+                                describe(opc, &payload)
+                            }
+                            Err(e) => e,
+                        };
+                        init.ex = None;
+                        s
+                    }
+                    _ => "skip".into(),
+                }
+            }
+            "abort" => {
+                let k = num(&m, "i");
+                match inits.get_mut(&k) {
+                    Some(init) if init.ex.is_some() => {
+                        let ex = init.ex.as_mut().unwrap();
+                        let _ = ex.send_with(|_, wb| sc_write(wb, SCStatusCodes::InvalidParameter, &[])).await;
+                        // give the responder the time to digest it
+                        Timer::after(Duration::from_millis(50)).await;
+                        init.ex = None;
+                        "-".into()
+                    }
+                    _ => "skip".into(),
+                }
+            }
+            _ => "skip".into(),
+        };
+        // let the device finish what the message triggered
+        Timer::after(Duration::from_millis(20)).await;
+        let mut line = format!("t={} {} | {}", t0, res, observe(device));
+        for n in notes.borrow_mut().drain(..) {
+            line.push(' ');
+            line.push_str(&n);
+        }
+        outs.borrow_mut().push(line);
+    }
+    Ok(())
+}
+
+/// offset of the application payload of an unsecured datagram and its protocol opcode (real header parsers)
+fn payload_start(bytes: &[u8]) -> Option<(usize, u8)> {
+    let mut c = bytes.to_vec();
+    let mut pb = ParseBuf::new(&mut c);
+    let mut hdr = PacketHdr::new();
+    hdr.plain.decode(&mut pb).ok()?;
+    if hdr.plain.is_encrypted() {
+        return None;
+    }
+    hdr.decode_remaining(test_only_crypto(), None, 0, &mut pb).ok()?;
+    Some((pb.read_off(), hdr.proto.proto_opcode))
+}
+
+fn run_case(out: &mut Out, case: &Case) {
+    out.case(case.id, &case.kind);
+    let m = kv(&case.kind);
+    let pw = (num(&m, "pw") as u32).to_le_bytes();
+    let comm = BasicCommData { password: Spake2pVerifierPassword::new_from_ref(Spake2pVerifierPasswordRef::new(&pw)), discriminator: 3840 };
+    let net = SimNet::new(2, Box::new(Perfect));
+    let device = Matter::new(&TEST_DEV_DET, comm.clone(), &TEST_DEV_ATT, 0);
+    let ctrl = Matter::new(&TEST_DEV_DET, comm, &TEST_DEV_ATT, 0);
+    let crypto = test_only_crypto();
+    let ds = net.socket(0);
+    let cs = net.socket(1);
+    let sc = SecureChannel::new(&crypto, &());
+    let responder = Responder::new("device", sc, &device, 0);
+    let outs: RefCell<Vec<String>> = RefCell::new(Vec::new());
+    let notes: std::rc::Rc<RefCell<Vec<String>>> = std::rc::Rc::new(RefCell::new(Vec::new()));
+    if let Some(t) = m.get("tamper") {
+        let notes = notes.clone();
+        let mut it = t.split(':');
+        let k: u64 = it.next().and_then(|x| x.parse().ok()).unwrap_or(0);
+        let bit: usize = it.next().and_then(|x| x.parse().ok()).unwrap_or(0);
+        let mut seen = 0u64;
+        net.set_tamper(Box::new(move |_seq, from, _to, bytes| {
+            let (start, opcode) = payload_start(bytes)?;
+            if start >= bytes.len() {
+                return None; // stand-alone acknowledgement
+            }
+            // towards the device: every handshake message; towards the initiator: the PBKDFParamResponse only
+            // (a damaged Pake2 is the initiator's to detect, not the responder's)
+            if from == 0 && opcode != OpCode::PBKDFParamResponse as u8 {
+                return None;
+            }
+            seen += 1;
+            if seen != k {
+                return None;
+            }
+            let mut v = bytes.to_vec();
+            let b = bit % ((bytes.len() - start) * 8);
+            // which payload byte of which message was hit: `hit=<opcode hex>:<offset>/<payload length>:<bit>:<old byte hex>`
+            notes.borrow_mut().push(format!("hit={:02x}:{}/{}:{}:{:02x}", opcode, b / 8, bytes.len() - start, b % 8, v[start + b / 8]));
+            v[start + b / 8] ^= 1 << (b % 8);
+            Some(v)
+        }));
+    }
+    let end = {
+        let script = run_script(&device, &ctrl, &crypto, &case.ops, &outs, &notes);
+        let all = async {
+            match select4(device.run(&crypto, &ds, &ds, NoNetwork), responder.run::<4>(), ctrl.run(&crypto, &cs, &cs, NoNetwork), script).await {
+                embassy_futures::select::Either4::Fourth(r) => r,
+                _ => Err(ErrorCode::Invalid.into()),
+            }
+        };
+        run_sim(&net, all, 4_000_000)
+    };
+    let outs = outs.into_inner();
+    for (i, op) in case.ops.iter().enumerate() {
+        match outs.get(i) {
+            Some(o) => {
+                out.stat(&format!("reply_{}", o.split_whitespace().nth(1).unwrap_or("?").split(':').next().unwrap_or("?")), 1);
+                out.op(op, o)
+            }
+            None => out.op(
+                op,
+                match &end {
+                    SimEnd::Done(Err(e)) => Box::leak(format!("script-err:{:?}", e.code()).into_boxed_str()),
+                    SimEnd::Timeout => "sim-timeout",
+                    _ => "missing",
+                },
+            ),
+        }
+    }
+}
+
+// ------------------------------------------------------------------------------------------ generator
+
+fn gen_case(id: u64, r: &mut Rng, out: &mut Out) -> (String, Vec<String>) {
+    let dev_pw = *r.pick(&[20202021u64, 12345679, 1, 99999998]);
+    let mut ops: Vec<String> = Vec::new();
+    let scenario = id % 12;
+    out.stat(&format!("scenario_{}", scenario), 1);
+    let good_pw = dev_pw;
+    let bad_pw = if dev_pw == 1 { 2 } else { dev_pw - 1 };
+    let win = *r.pick(&[180u64, 181, 300, 900]);
+    match scenario {
+        0 => {
+            // the honest run, after an arbitrary part of the window's life
+            ops.push(format!("open t={}", win));
+            ops.push(format!("tick ms={}", r.below(win * 1000 - 5000)));
+            ops.push("pbkdf i=1".into());
+            ops.push(format!("pake1 i=1 pw={}", good_pw));
+            ops.push("pake3 i=1".into());
+        }
+        1 => {
+            // wrong passcodes until the window is revoked, then the right one
+            ops.push(format!("open t={}", win));
+            let n = r.range(18, 22);
+            for k in 0..n {
+                ops.push(format!("pbkdf i={}", k + 1));
+                ops.push(format!("pake1 i={} pw={}", k + 1, bad_pw));
+                ops.push(format!("pake3 i={}", k + 1));
+            }
+            ops.push("pbkdf i=50".into());
+            ops.push(format!("pake1 i=50 pw={}", good_pw));
+            ops.push("pake3 i=50".into());
+        }
+        2 => {
+            // the window is revoked between two steps of a valid handshake
+            let at = r.below(3);
+            ops.push(format!("open t={}", win));
+            if at == 0 {
+                ops.push("revoke".into());
+            }
+            ops.push("pbkdf i=1".into());
+            if at == 1 {
+                ops.push("revoke".into());
+            }
+            ops.push(format!("pake1 i=1 pw={}", good_pw));
+            if at == 2 {
+                ops.push("revoke".into());
+            }
+            ops.push("pake3 i=1".into());
+            out.stat(&format!("revoke_at_{}", at), 1);
+        }
+        3 => {
+            // the window expires between two steps (with / without the poll having run)
+            let at = r.below(3);
+            let poll = r.chance(1, 2);
+            ops.push(format!("open t={}", win));
+            let mut left = win * 1000;
+            let wait = |ops: &mut Vec<String>, until_after: bool, left: &mut u64| {
+                if until_after {
+                    ops.push(format!("tick ms={}", *left + 500));
+                    *left = 0;
+                    if poll {
+                        ops.push("poll".into());
+                    }
+                }
+            };
+            ops.push(format!("tick ms={}", win * 1000 - 20_000));
+            left -= win * 1000 - 20_000;
+            wait(&mut ops, at == 0, &mut left);
+            ops.push("pbkdf i=1".into());
+            wait(&mut ops, at == 1, &mut left);
+            ops.push(format!("pake1 i=1 pw={}", good_pw));
+            wait(&mut ops, at == 2, &mut left);
+            ops.push("pake3 i=1".into());
+            out.stat(&format!("expire_at_{}", at), 1);
+        }
+        4 => {
+            // a second initiator while one is in progress; then the first one goes on
+            ops.push(format!("open t={}", win));
+            ops.push("pbkdf i=1".into());
+            ops.push("pbkdf i=2".into());
+            ops.push(format!("pake1 i=1 pw={}", good_pw));
+            if r.chance(1, 2) {
+                ops.push("pbkdf i=3".into());
+            }
+            ops.push("pake3 i=1".into());
+            ops.push("pbkdf i=4".into());
+            ops.push(format!("pake1 i=4 pw={}", good_pw));
+            ops.push("pake3 i=4".into());
+        }
+        5 => {
+            // invalid prover shares
+            ops.push(format!("open t={}", win));
+            for (k, pt) in ["zero", "offcurve", "short"].iter().enumerate() {
+                ops.push(format!("pbkdf i={}", k + 1));
+                ops.push(format!("pake1 i={} pw={} pt={}", k + 1, good_pw, pt));
+                ops.push(format!("pake3 i={}", k + 1));
+            }
+        }
+        6 => {
+            // mutated confirmation values
+            ops.push(format!("open t={}", win));
+            for (k, ca) in ["flip", "zero", "short"].iter().enumerate() {
+                ops.push(format!("pbkdf i={}", k + 1));
+                ops.push(format!("pake1 i={} pw={}", k + 1, good_pw));
+                ops.push(format!("pake3 i={} ca={}", k + 1, ca));
+            }
+            ops.push("pbkdf i=9".into());
+            ops.push(format!("pake1 i=9 pw={}", good_pw));
+            ops.push("pake3 i=9".into());
+        }
+        7 => {
+            // a confirmation value replayed from an earlier (successful) handshake
+            ops.push(format!("open t={}", win));
+            ops.push("pbkdf i=1".into());
+            ops.push(format!("pake1 i=1 pw={}", good_pw));
+            ops.push("pake3 i=1".into());
+            ops.push("pbkdf i=2".into());
+            ops.push(format!("pake1 i=2 pw={}", good_pw));
+            ops.push("pake3 i=2 ca=replay:1".into());
+        }
+        8 => {
+            // malformed first messages, aborts
+            ops.push(format!("open t={}", win));
+            ops.push(format!("pbkdf i=1 req={}", r.pick(&["malformed", "pid"])));
+            ops.push("pbkdf i=2".into());
+            ops.push("abort i=2".into());
+            ops.push("pbkdf i=3".into());
+            ops.push(format!("pake1 i=3 pw={}", good_pw));
+            ops.push("abort i=3".into());
+            ops.push("pbkdf i=4".into());
+            ops.push(format!("pake1 i=4 pw={}", good_pw));
+            ops.push("pake3 i=4".into());
+        }
+        9 => {
+            // no window at all; window opened twice; bad timeouts
+            ops.push("pbkdf i=1".into());
+            ops.push(format!("open t={}", r.pick(&[0u64, 179, 901, 65535])));
+            ops.push(format!("open t={}", win));
+            ops.push(format!("open t={}", win));
+            ops.push("revoke".into());
+            ops.push("revoke".into());
+            ops.push("pbkdf i=2".into());
+        }
+        10 => {
+            // the in-progress marker expires (60 s) between two steps
+            ops.push(format!("open t={}", win));
+            ops.push("pbkdf i=1".into());
+            ops.push(format!("tick ms={}", r.range(61_000, 70_000)));
+            if r.chance(1, 2) {
+                ops.push("pbkdf i=2".into());
+            }
+            ops.push(format!("pake1 i=1 pw={}", good_pw));
+            ops.push("pake3 i=1".into());
+        }
+        _ => {
+            // free mix
+            ops.push(format!("open t={}", win));
+            let mut k = 0;
+            for _ in 0..r.range(2, 5) {
+                k += 1;
+                let pw = if r.chance(2, 3) { good_pw } else { bad_pw };
+                ops.push(format!("pbkdf i={}", k));
+                if r.chance(1, 6) {
+                    ops.push("revoke".into());
+                }
+                if r.chance(1, 6) {
+                    ops.push(format!("open t={}", win));
+                }
+                ops.push(format!("pake1 i={} pw={}", k, pw));
+                if r.chance(1, 6) {
+                    ops.push("revoke".into());
+                }
+                if r.chance(1, 6) {
+                    // never inside the band in which the responder's own receive timeout fires (~38 s)
+                    ops.push(format!("tick ms={}", if r.chance(2, 3) { r.range(1000, 25_000) } else { r.range(50_000, 70_000) }));
+                }
+                ops.push(format!("pake3 i={}{}", k, if r.chance(1, 5) { " ca=flip" } else { "" }));
+            }
+        }
+    }
+    (format!("pw={}", dev_pw), ops)
+}
+
+/// the honest handshake with one payload bit flipped in flight
+fn gen_tamper(r: &mut Rng, out: &mut Out) -> (String, Vec<String>) {
+    let dev_pw = *r.pick(&[20202021u64, 12345679]);
+    // payload-carrying datagrams in order: 1 PBKDFParamRequest, 2 PBKDFParamResponse, 3 Pake1, 4 Pake3
+    let k = r.range(1, 4);
+    let bit = r.below(4096);
+    out.stat(&format!("tamper_msg_{}", k), 1);
+    let ops = vec!["open t=300".to_string(), "pbkdf i=1".into(), format!("pake1 i=1 pw={}", dev_pw), "pake3 i=1".into()];
+    (format!("pw={} tamper={}:{}", dev_pw, k, bit), ops)
+}
+
+const RULE: &str = "a case = one device (real Matter + SecureChannel responder, passcode from {20202021,12345679,1,99999998}) and one controller on the simulated network with virtual time; the script plays 1-50 PASE initiators message by message with the real Spake2P prover; scenarios: honest run at an arbitrary point of the window's life, 18-22 wrong passcodes then the right one, revoke / expiry (with and without the 1 s poll) before PBKDFParamRequest / before Pake1 / before Pake3, concurrent second initiator, invalid prover shares (zero, off-curve, short), mutated / short / replayed confirmation values, malformed first messages and aborts, no window / double open / illegal timeouts, in-progress marker expiry, free mixes; non-trivial = the case contains at least one step that was refused or dropped and one that was answered; distinct = by operation list";
+
+pub fn gen(a: &Args) -> String {
+    let mut r = Rng::new(a.seed);
+    let mut out = Out::default();
+    out.buf.push_str(&format!("#rule {}\n", RULE));
+    let n_cases = if a.thorough { 600 } else { 60 };
+    for id in 0..n_cases {
+        let mut cr = r.fork();
+        let (kind, ops) = gen_case(id, &mut cr, &mut out);
+        run_case(&mut out, &Case { id, kind, ops });
+    }
+    // tamper stream: single-bit mutations of the handshake messages in flight (oracle only)
+    let n_tamper = if a.thorough { 4000 } else { 300 };
+    for id in 0..n_tamper {
+        let mut cr = r.fork();
+        let (kind, ops) = gen_tamper(&mut cr, &mut out);
+        run_case(&mut out, &Case { id: n_cases + id, kind, ops });
+    }
+    out.finish()
+}
+
+pub fn replay(a: &Args) -> String {
+    let text = std::fs::read_to_string(a.input.as_ref().expect("--in")).expect("read input");
+    let mut out = Out::default();
+    for c in parse_cases(&text) {
+        run_case(&mut out, &c);
+    }
+    out.finish()
 }
